@@ -36,6 +36,7 @@
 #include <tbox/base/assert.h>
 #include <tbox/base/wrapped_recorder.h>
 #include <tbox/event/loop.h>
+#include <tbox/base/verif_hook.h>
 
 namespace tbox {
 namespace eventx {
@@ -120,7 +121,9 @@ WorkThread::TaskToken WorkThread::execute(NonReturnFunc &&backend_task, NonRetur
         item->token = token = d_->undo_tasks_cabinet.alloc(item);
 
         d_->undo_tasks_token_deque.push_back(token);
+        CPP_TBOX_VERIF_POINT("wt.exec", token.id(), 0);
     }
+    CPP_TBOX_VERIF_POINT("wt.exec.unlocked", token.id(), 0);
 
     LogDbg("create task %u", token.id());
     d_->cond_var.notify_one();
@@ -143,6 +146,7 @@ WorkThread::TaskStatus WorkThread::getTaskStatus(TaskToken task_token) const
     }
 
     std::lock_guard<std::mutex> lg(d_->lock);
+    CPP_TBOX_VERIF_POINT("wt.status", task_token.id(), 0);
 
     if (d_->undo_tasks_cabinet.at(task_token) != nullptr)
         return TaskStatus::kWaiting;
@@ -168,6 +172,7 @@ int WorkThread::cancel(TaskToken token)
     }
 
     std::lock_guard<std::mutex> lg(d_->lock);
+    CPP_TBOX_VERIF_POINT("wt.cancel", token.id(), 0);
 
     //! 如果正在执行
     if (d_->doing_tasks_token.find(token) != d_->doing_tasks_token.end())
@@ -196,7 +201,9 @@ void WorkThread::threadProc()
             std::unique_lock<std::mutex> lk(d_->lock);
 
             //! 等待任务
+            CPP_TBOX_VERIF_POINT("wt.w.wait", 1, 0);
             d_->cond_var.wait(lk, std::bind(&WorkThread::shouldThreadExitWaiting, this));
+            CPP_TBOX_VERIF_POINT("wt.w.woken", 1, d_->stop_flag);
 
             /**
              * 有两种情况会从 cond_var.wait() 退出
@@ -211,11 +218,14 @@ void WorkThread::threadProc()
             }
 
             item = popOneTask();    //! 从任务队列中取出优先级最高的任务
+            CPP_TBOX_VERIF_POINT("wt.w.pop", 1, (item != nullptr) ? item->token.id() : 0);
 
             //! 在同一个临界区内登记为"正在执行"，保证任务在任何时刻都能被 getTaskStatus() 与 cancel() 查到
             if (item != nullptr)
                 d_->doing_tasks_token.insert(item->token);
+            CPP_TBOX_VERIF_POINT("wt.w.mark", 1, (item != nullptr) ? item->token.id() : 0);
         }
+        CPP_TBOX_VERIF_POINT("wt.w.unlocked", 1, 0);
 
         //! 后面就是去执行任务，不需要再加锁了
         if (item != nullptr) {
@@ -223,6 +233,7 @@ void WorkThread::threadProc()
 
             LogDbg("thread pick task %u", item->token.id());
 
+            CPP_TBOX_VERIF_POINT("wt.w.body_begin", 1, item->token.id());
             auto exec_time_point = Clock::now();
             auto wait_time_cost = exec_time_point - item->create_time_point;
 
@@ -232,6 +243,7 @@ void WorkThread::threadProc()
             }
 
             auto exec_time_cost = Clock::now() - exec_time_point;
+            CPP_TBOX_VERIF_POINT("wt.w.body_end", 1, item->token.id());
 
             LogDbg("thread finish task %u, cost %" PRIu64 " + %" PRIu64 " us",
                    item->token.id(),
@@ -246,16 +258,20 @@ void WorkThread::threadProc()
             {
                 std::lock_guard<std::mutex> lg(d_->lock);
                 d_->doing_tasks_token.erase(item->token);
+                CPP_TBOX_VERIF_POINT("wt.w.erase", 1, item->token.id());
                 d_->task_pool.free(item);
             }
+            CPP_TBOX_VERIF_POINT("wt.w.unlocked", 1, 1);
         }
     }
 
     LogDbg("thread exit");
+    CPP_TBOX_VERIF_POINT("wt.w.leaving", 1, 0);
 }
 
 bool WorkThread::shouldThreadExitWaiting() const
 {
+    CPP_TBOX_VERIF_POINT("wt.w.pred", d_->stop_flag, d_->undo_tasks_token_deque.empty());
     return d_->stop_flag || !d_->undo_tasks_token_deque.empty();
 }
 
@@ -286,11 +302,15 @@ void WorkThread::cleanup()
         //! 停止标记必须在锁内修改：工作线程是在持锁状态下检查它然后进入等待的，
         //! 在锁外修改会产生数据竞争，并可能丢失下面的 notify_all()，导致 join() 永不返回
         d_->stop_flag = true;
+        CPP_TBOX_VERIF_POINT("wt.cleanup.collect", 1, d_->stop_flag);
     }
+    CPP_TBOX_VERIF_POINT("wt.cleanup.unlocked", 0, 0);
 
     d_->cond_var.notify_all();
+    CPP_TBOX_VERIF_POINT("wt.cleanup.notified", 0, 0);
 
     d_->work_thread.join();
+    CPP_TBOX_VERIF_POINT("wt.cleanup.joined", 0, 0);
 
     CHECK_DELETE_RESET_OBJ(d_);
 }
